@@ -199,12 +199,23 @@ impl Exec {
         }
         for e in drops {
             self.last_gone.push(e.id);
+            // a destructor that panicked inside a collection call: if a reachable weak pointer
+            // refers to the object it was a weakly marked one (its shell stays in the object list
+            // and follows the ordinary shell rules); otherwise it had already been unlinked and its
+            // block is never released
+            let mut weakly_held = false;
+            if e.panicked && track::ctx_kind(e.ctx) != track::CTX_ARENA_DROP {
+                if let Some(a) = self.w.objs.get(&e.id).map(|o| o.a) {
+                    weakly_held = self.w.weak_targets(a).contains_key(&e.id);
+                }
+            }
             let Some(o) = self.w.objs.get_mut(&e.id) else {
                 continue; // not an arena object of this history (e.g. layout tokens)
             };
             o.drops += 1;
             if e.panicked {
                 o.drop_panicked = true;
+                o.leak_ok = !weakly_held;
             }
             let (a, drops_n, id) = (o.a, o.drops, o.id);
             self.drops_seen[a as usize] += 1;
